@@ -31,8 +31,9 @@ Definition ol (read sent : list int) (bad : int) : olane :=
 Definition il (arr wr : list int) (bad : int) : ilane :=
   {| i_arr := nruns arr; i_wr := nruns wr; i_bad := n_of_int bad |}.
 Definition mk (outs : list olane) (ins : list ilane) (quiet : bool) (n0 : list int)
-              (outp : list olane) (inp : list ilane) : case :=
-  {| c_tr := {| t_out := outs; t_in := ins; t_quiet := quiet; t_outp := outp; t_inp := inp |}; c_n0 := ns_of_ints n0 |}.
+              (outp : list olane) (inp : list ilane) (outm outu : list olane) : case :=
+  {| c_tr := {| t_out := outs; t_in := ins; t_quiet := quiet; t_outp := outp; t_inp := inp; t_outm := outm; t_outu := outu |};
+     c_n0 := ns_of_ints n0 |}.
 
 Fixpoint eqlp (a b : list (N * N)) : bool :=
   match a, b with
@@ -67,7 +68,9 @@ Definition check_case (k : case) : list (N * N) :=
   map (fun i => (2, i)) (idx_fails (olane_ok (t_quiet t)) (t_out t) 0) ++
   map (fun i => (2, i)) (idx_fails (ilane_ok (t_quiet t)) (t_in t) 100) ++
   map (fun i => (2, i)) (idx_fails (olane_ok false) (t_outp t) 200) ++
-  map (fun i => (2, i)) (idx_fails (ilane_ok false) (t_inp t) 300).
+  map (fun i => (2, i)) (idx_fails (ilane_ok false) (t_inp t) 300) ++
+  map (fun i => (2, i)) (idx_fails (mlane_ok (t_quiet t)) (t_outm t) 400) ++
+  map (fun i => (2, i)) (idx_fails (mlane_ok false) (t_outu t) 500).
 
 Fixpoint check_cases (ks : list case) (idx : N) : list (N * N * N) :=
   match ks with
